@@ -51,10 +51,12 @@ fn uncache_under_replace(t: &T, under: bool) -> T {
 fn has_cached_under_replace(t: &T) -> bool { t.has(&|x| matches!(x, T::Replace(i, _) if i.has(&|y| matches!(y, T::Cached(..))))) }
 /// K5: a CachedSource beneath a ReplaceSource replays coarser chunks than its first fill; the failure
 /// is this finding exactly when it disappears once those CachedSource wrappers are removed.
-fn k5(c: &Case, f: &Finding, oracle: &(dyn Fn(&Case, &[Out]) -> Vec<Finding> + std::panic::RefUnwindSafe)) -> Option<String> {
+pub(crate) fn k5(c: &Case, f: &Finding, oracle: &(dyn Fn(&Case, &[Out]) -> Vec<Finding> + std::panic::RefUnwindSafe)) -> Option<String> {
   if !c.trees.iter().any(has_cached_under_replace) { return None }
   let c2 = Case { trees: c.trees.iter().map(|t| uncache_under_replace(t, false)).collect(), script: c.script.clone(), note: c.note.clone() };
-  let still = catch(|| oracle(&c2, &run_case_impl(&c2)).iter().any(|x| x.clause == f.clause)).unwrap_or(true);
+  // the same failure = same clause and, where the detail names one of several variants, the same variant (another variant may fail for another, separately listed reason)
+  let key = |x: &Finding| -> String { if x.detail.starts_with("variant ") { format!("{} {}", x.clause, x.detail.split(' ').take(2).collect::<Vec<_>>().join(" ")) } else { x.clause.clone() } };
+  let still = catch(|| oracle(&c2, &run_case_impl(&c2)).iter().any(|x| key(x) == key(f))).unwrap_or(true);
   if still { None } else { Some("K5".into()) }
 }
 fn has_composite(c: &Case) -> bool { c.trees.iter().any(|t| t.has(&|x| matches!(x, T::Replace(..) | T::Concat(_) | T::Cached(..)))) }
